@@ -252,6 +252,13 @@ def rule_win(c, prog):
         c.violation(R, "xml-writer|explicit-not-checked", f"serialize_instance writes the migrated legacy value under migration.new_property_name on {r['unguarded']} path(s) without testing that the instance lacks that property: with both present two elements of the same name are written, and for migrations whose new name sorts before the legacy name (e.g. MeshId -> MeshContent) the migrated value is read back instead of the explicit one", f.sp, instance="xml-writer:explicit-wins")
     else:
         c.ok(R, "xml-writer:explicit-wins", max(r["migrated_store"], 1))
+    # the same for a legacy value that cannot be migrated: it is written as it is — next to an explicit new value that is
+    # an element the reader trips over before it reaches the explicit one
+    inst = "xml-writer:explicit-wins-over-unmigratable"
+    if r.get("legacy_store_on_err_unguarded"):
+        c.violation(R, "xml-writer|explicit-not-checked-on-failure", f"serialize_instance writes the legacy element unmigrated on {r['legacy_store_on_err_unguarded']} path(s) where PropertyMigration::perform failed, without testing that the instance lacks migration.new_property_name: a TextLabel with Font = Unknown (100) and an explicit FontFace — the state Roblox reports for any non-legacy font — is written with <token name=\"Font\">100</token> before the FontFace element, and rbx_xml's reader rejects that file at the Font element", f.sp, instance=inst)
+    else:
+        c.ok(R, inst)
 
 
 def rule_memo(c, prog):
